@@ -64,6 +64,21 @@ func (c08Prop) Generate(seed uint64, idx int, tier string) *Plan {
 	if fs.VClass == 3 && r.P(3, 4) {
 		fs.VClass = 1
 	}
+	// Some files need blocks of >= 64 records, so that the block count varint
+	// has more than one byte and a cut can fall inside it.
+	if r.P(1, 6) {
+		fs = FileSpec{Type: r.Pick([]string{"One", "Empty", "Flat", "OneMap"}), N: r.Range(64, 300), VSeed: r.Uint64(), VClass: 0,
+			Codec: r.Pick(codecNames), Writer: "enc", BlockSize: r.PickInt([]int{1 << 20, 1 << 20, 2000}), SyncSeed: r.Uint64()}
+		if r.P(1, 3) {
+			fs.Writer = "ref"
+			fs.BlockSize = 0
+			k := r.Range(64, fs.N)
+			fs.Parts = []int{k}
+			if fs.N-k > 0 {
+				fs.Parts = append(fs.Parts, fs.N-k)
+			}
+		}
+	}
 	pl := &C08Plan{File: fs, Chunks: genChunks(r)}
 	for i := 0; i < 300; i++ {
 		pl.CutSample = append(pl.CutSample, r.Uint32())
@@ -119,8 +134,14 @@ func cutClass(c *ref.Container, b int) (class string, blockPos string) {
 			// == previous block's End; handled above for j-1, unreachable
 			return "blockEnd", blockPos
 		case b < bl.SizeOff:
+			if b > bl.Start {
+				return "block-count-mid-varint", blockPos
+			}
 			return "block-count", blockPos
 		case b < bl.PayloadOff:
+			if b > bl.SizeOff {
+				return "block-len-mid-varint", blockPos
+			}
 			return "block-len", blockPos
 		case b == bl.PayloadEnd:
 			if bl.PayloadOff == bl.PayloadEnd {
